@@ -91,6 +91,8 @@ def build(tables, file_objects=None, *, hdr_seqs=(2, 1), sigs=None, version=0x40
         objs.append((OBJ_FILE, off, osize, 1))
     objs += list(extra_objects)
     if chain_rng is not None and objs:
+        # the objects may be listed in any order (a child's key table before its parent's, file objects first, ...)
+        chain_rng.shuffle(objs)
         # released slots (allocated = 0) anywhere between the live ones: they are skipped, not an end marker
         for _ in range(chain_rng.randrange(0, 3)):
             objs.insert(chain_rng.randrange(0, len(objs) + 1), (chain_rng.choice([OBJ_KEYTAB, OBJ_FILE, OBJ_OBJTAB]), chain_rng.choice([0, 0x7000, 0x123000]), 0x1000, 0))
@@ -110,7 +112,9 @@ def build(tables, file_objects=None, *, hdr_seqs=(2, 1), sigs=None, version=0x40
     ot = struct.pack("<II", sigs.get("objtab", SIG_OBJTAB), len(objs))
     for typ, off, size, alloc in objs:
         ot += struct.pack("<BIQIB", typ, 0x1234, off, size, alloc)
-    assert len(ot) <= 0x1000
+    if len(ot) > 0x1000:
+        # more entries than fit the usual single page: the table simply continues (nothing else may live up to its end)
+        assert all(o >= 0x2000 + len(ot) or o < 0x2000 for o in out), "object table would overlap another structure"
     out[0x2000] = ot
     for off, ents in (more_objtabs or {}).items():
         # additional object tables (reachable through ObjectTable entries): {offset: [(type, offset, size, allocated)]}
@@ -125,17 +129,29 @@ def build(tables, file_objects=None, *, hdr_seqs=(2, 1), sigs=None, version=0x40
     out[0] = file_header(hdr_seqs[0], sig=sigs.get("head1", SIG_HEADER), version=version, log_off=lo1)
     out[0x1000] = file_header(hdr_seqs[1], sig=sigs.get("head2", SIG_HEADER), version=version, log_off=lo2)
     end = max(o + len(b) for o, b in out.items())
+    if end > (1 << 30):
+        # objects far into the file (file objects / key tables beyond 4 GiB): a sparse virtual file instead of bytes
+        from .vfile import VirtualFile
+        ext, last = [], -1
+        for o, b in sorted(out.items()):      # later entries win where structures were written over one another
+            if o < last:
+                raise ValueError("overlapping structures in a far layout")
+            ext.append((o, len(b), "bytes", b))
+            last = o + len(b)
+        return VirtualFile(end, ext)
     buf = bytearray(end)
     for o, b in out.items():
         buf[o:o + len(b)] = b
     return bytes(buf)
 
 
-def plan_tables(nodes, *, ntables_free=(), stale=(), newer_first=True, big_threshold=0x800, pad_rng=None, flag_rng=None):
+def plan_tables(nodes, *, ntables_free=(), stale=(), newer_first=True, big_threshold=0x800, pad_rng=None, flag_rng=None, far=0):
     """nodes: list of {"id", "parent" (id or 0), "tbl", "key", "type", "value"} (parents before children).
     Lays the entries out per table (with optional free entries), resolves parent references to (table index, entry
     offset) and returns (tables in object-table order, file_objects, layout)."""
     lay = Layout()
+    if far:
+        lay.cur = far     # file objects and key tables start this far into the file (e.g. beyond 4 GiB)
     per = {}
     for n in nodes:
         per.setdefault(n["tbl"], []).append(n)
